@@ -252,6 +252,23 @@ PROPS = {
         "real_vs_stub": "real: pkg/storage/mmap arena + compactor (sync rewritten to verifsync, file calls to verifos, real mmap of real sparse files), pkg/core/distance kernels and quantizer; stub: NodePointerUpdater (a map of aliasing slices standing for hnsw nodes); the hnsw index itself is not in this check (its use of the arena is exercised by C01/C02/C07)",
         "assumptions": ["callers do not mutate the arena concurrently with a compaction cycle (property text: sequences of operations, with readers concurrent)", "a slice returned by GetBytes is judged only while no relocation or mutation intervened (it aliases the mapping by design)"],
     },
+    "C07": {
+        "level": "exploration", "quick": 300, "thorough": 40000, "batch": 5,
+        "rule": ("one index per run over a procedurally generated data set (independent Gaussian, clustered, with duplicates, with zero-vector hubs, integer lattice; "
+                 "dim 2-256; euclidean/cosine; float32, float16, int8) with M in {4..32} and efConstruction in {default, 2M, 100, 200}. History = seeded mix of single "
+                 "adds, batches, fast imports (+commit = turbo refine), deletes, vacuum, refine, compress, snapshot, rewrite and restart, with evaluations in between. "
+                 "SMALL REGIME (never more than 2M nodes present, efC >= 2M; half of the runs, biased to sizes at the 2M bound): every VSearch(k in 1..40, ef in 0..100) "
+                 "must return min(k, live) results that are all within the brute-force k-th distance computed from the VGet vectors (ties and the query's own rounding "
+                 "to the index precision are tolerated, nothing else). LARGE REGIME (80-2000 vectors): mean recall@10 over 30-45 queries with ef >= 100 and retrieval of "
+                 "up to 150 stored vectors by their own value (k=1) must stay above fixed floors: 0.35 / 0.50 on every data set, 0.60 / 0.90 on data without hubs, "
+                 "lattices or tight clusters. STRUCTURE (white-box shim, after every operation): neighbour lists within M / 2M, every neighbour id points at an existing "
+                 "node, the entry point exists, sits at maxLevel, is not below the top level of the live nodes and is live right after vacuum. Non-trivial: >= 2 evaluations; "
+                 "distinct = program+data-set hash."),
+        "real_vs_stub": REAL + "; white-box reader pkg/core/hnsw VerifStructure (overlay shim, read-only)",
+        "assumptions": ["the value of the floor is not given by the property: 0.35/0.50 (any data) and 0.60/0.90 (data without hubs/lattices/tight clusters) were fixed once, see DESIGN.md C07",
+                        "exact regime = at most 2M nodes ever present in the current graph and efConstruction >= 2M (otherwise the base layer is not fully connected by construction)",
+                        "data sets contain at most 6 identical vectors: more than 2M identical vectors form a closed island in any HNSW"],
+    },
 }
 
 
@@ -261,6 +278,12 @@ NOT_APPLICABLE["C20"] = ("pure functions of their input (text analysis, chunking
                          "no schedule, fault or interleaving for a simulator to decide; property-based testing territory, see DESIGN.md section 7")
 
 MANIFEST_TEXT = {
+    "C07": {
+        "text": "Recall is a property of histories: the same data gives different graphs depending on insertion path, deletions, maintenance, compression and restart. Seeded histories with restart injection are judged against brute force over the stored vectors (exactness while the base layer is fully connected, fixed floors beyond) and against structural invariants read white-box after every operation.",
+        "design_ref": "DESIGN.md section 6 C07",
+        "note": "Single-task histories (concurrent search/maintenance is C06/C13). Floors are fixed by this check because the property leaves them open; the observed distribution is reported in the evidence probes. Nodes without incoming links after fast import, refine and vacuum are a measured weakness (DESIGN.md C07), above the universal floors.",
+        "technique": "deterministic simulation: seeded build/delete/maintenance/compress/restart histories (restart = close+reopen from disk) against a brute-force oracle; white-box structural invariants after every step",
+    },
     "C18": {
         "text": "The arena half is a schedule-dependent aliasing property: a shadow map of unique byte patterns is compared with the real memory-mapped arena while a reader task interleaves, at every lock operation, with a compactor task relocating slots and a mutator reusing them, including state save / close / reopen / load. The numeric half (kernels, quantiser, float16) has no schedule in it and is plain input generation, reported under its own counter.",
         "design_ref": "DESIGN.md section 6 C18",
